@@ -6,7 +6,6 @@ import (
 	"os"
 	"os/exec"
 	"runtime"
-	"sort"
 	"strconv"
 	"strings"
 	"sync/atomic"
@@ -223,6 +222,11 @@ func StructuralInvariant(c *girc.Client) string {
 		}
 		return ""
 	}
+	for _, u := range users {
+		if m := okList(u.ChannelList); m != "" {
+			return "ChannelList of " + u.Nick + ": " + m
+		}
+	}
 	for _, ch := range chans {
 		if m := okList(ch.UserList); m != "" {
 			return "UserList of " + ch.Name + ": " + m
@@ -232,7 +236,7 @@ func StructuralInvariant(c *girc.Client) string {
 			if u == nil {
 				return "channel " + ch.Name + " lists unknown user " + strconv.Quote(n)
 			}
-			if !sort.StringsAreSorted(u.ChannelList) || !containsStr(u.ChannelList, girc.ToRFC1459(ch.Name)) {
+			if !containsStr(u.ChannelList, girc.ToRFC1459(ch.Name)) {
 				return "nick " + n + " is listed in " + ch.Name + " but the channel is not listed for the user"
 			}
 		}
@@ -302,8 +306,8 @@ func RunHistory(nick, user string, evs []Ev) (obs, oracle string, ss *StateSessi
 			select {
 			case <-returned:
 				break wait
-			case <-time.After(500 * time.Millisecond):
-				if !StateLockFree(ss.C, 400*time.Millisecond) {
+			case <-time.After(100 * time.Millisecond):
+				if !StateLockFree(ss.C, 150*time.Millisecond) {
 					return "WEDGED", fmt.Sprintf("wedge: the handlers of event %d (%s) block on a state lock that is never released", i, e.Cmd), ss
 				}
 				if time.Since(started) > 20*time.Second {
@@ -314,7 +318,7 @@ func RunHistory(nick, user string, evs []Ev) (obs, oracle string, ss *StateSessi
 		if ss.PanicCount() > 0 {
 			return "PANIC", fmt.Sprintf("panic: handler panicked on event %d (%s %q)", i, e.Cmd, e.Params), ss
 		}
-		if !StateLockFree(ss.C, 400*time.Millisecond) {
+		if !StateLockFree(ss.C, 150*time.Millisecond) {
 			return "WEDGED", fmt.Sprintf("wedge: state lock still held after event %d (%s)", i, e.Cmd), ss
 		}
 	}
@@ -430,6 +434,17 @@ type ConnOptions struct {
 	NoRecover bool // a handler panic is not absorbed (as with RecoverFunc == nil): the process dies
 }
 
+// mayDisconnect: events after which the client may decide to disconnect with an error.
+func mayDisconnect(e Ev, opt ConnOptions) bool {
+	switch e.Cmd {
+	case "ERROR":
+		return true
+	case "AUTHENTICATE", "902", "904", "905", "906", "908":
+		return opt.SASL
+	}
+	return false
+}
+
 // RunConnected pushes the history through the socket of a MockConnect'ed client, one line
 // at a time, then requires the liveness half of C05: a sentinel PING is answered, or
 // Connect has returned an error. Observation: the state dump, or "disconnected".
@@ -466,12 +481,38 @@ func RunConnected(nick, user string, evs []Ev, opt ConnOptions) (obs, oracle str
 		default:
 		}
 	}
+	stalled := false
+	// send writes one line; the pipe is synchronous, so a client that stopped reading (its
+	// receive queue is full because the handlers block) would block the harness too.
+	send := func(line string) bool {
+		errc := make(chan error, 1)
+		go func() { errc <- ss.Send(line) }()
+		start := time.Now()
+		for {
+			select {
+			case err := <-errc:
+				if err != nil {
+					gone = true
+					return false
+				}
+				return true
+			case <-time.After(100 * time.Millisecond):
+				if !StateLockFree(ss.C, 150*time.Millisecond) {
+					wedged = true
+					return false
+				}
+				if time.Since(start) > 15*time.Second {
+					stalled = true
+					return false
+				}
+			}
+		}
+	}
 	// barrier: PING tok, then wait for its PONG or for Connect to return.
 	barrier := func() bool {
 		seq++
 		tok := SentinelPrefix + strconv.Itoa(seq)
-		if err := ss.Send("PING " + tok); err != nil {
-			gone = true
+		if !send("PING " + tok) {
 			return false
 		}
 		want := "PONG " + tok + "\r\n"
@@ -491,7 +532,7 @@ func RunConnected(nick, user string, evs []Ev, opt ConnOptions) (obs, oracle str
 			}
 			// no answer for half a second and the state lock is held all the time: a handler
 			// returned (or died) with the lock held and every later handler blocks on it
-			if time.Since(sent) > 500*time.Millisecond && !StateLockFree(ss.C, 400*time.Millisecond) {
+			if time.Since(sent) > 200*time.Millisecond && !StateLockFree(ss.C, 150*time.Millisecond) {
 				wedged = true
 				return false
 			}
@@ -503,8 +544,7 @@ func RunConnected(nick, user string, evs []Ev, opt ConnOptions) (obs, oracle str
 		if !ok {
 			return "?unrenderable", ""
 		}
-		if err := ss.Send(line); err != nil {
-			gone = true
+		if !send(line) {
 			break
 		}
 		if e.Cmd == "001" && len(e.Params) > 0 {
@@ -520,18 +560,30 @@ func RunConnected(nick, user string, evs []Ev, opt ConnOptions) (obs, oracle str
 		if ss.PanicCount() > 0 {
 			return "PANIC", fmt.Sprintf("panic: handler panicked around event %d (%s %q)", i, e.Cmd, e.Params)
 		}
+		if mayDisconnect(e, opt) {
+			// Stop feeding once the client has decided to go: readLoop hands lines to a queue
+			// of 25 that nobody drains after execLoop has returned, and waits 30 s on each
+			// further line before it notices the cancellation; Connect returns that much later.
+			if !(barrier() && barrier()) {
+				break
+			}
+		}
 	}
 	// two barriers: an ERROR queued by a handler is behind at most the first one
-	alive := !gone && barrier() && barrier()
+	alive := !gone && !wedged && !stalled && barrier() && barrier()
 	if ss.PanicCount() > 0 {
 		return "PANIC", "panic: a handler panicked during the history"
 	}
 	if wedged {
 		healthy = false
-		return "WEDGED", "wedge: the state lock stays held and a PING is no longer answered"
+		return "WEDGED", "wedge: the state lock stays held and the client no longer reads or answers"
+	}
+	if stalled {
+		healthy = false
+		return "NOPONG", "liveness: the client stopped reading its socket for 15 s"
 	}
 	if alive {
-		if !StateLockFree(ss.C, 400*time.Millisecond) {
+		if !StateLockFree(ss.C, 150*time.Millisecond) {
 			healthy = false
 			return "WEDGED", "wedge: state lock still held after the history"
 		}
